@@ -241,6 +241,22 @@ class SymDict(dict):
         raise KeyError(key)
 
 
+NONFINITE_TAGS = set()      # tags of opaque arrays that (on this path) contain a NaN / inf entry
+_TRUNCATED = object()       # content of a file that was opened for writing and not (yet) written
+
+
+def _tags(obj, out):
+    if isinstance(obj, Tagged):
+        out.add(obj.tag)
+    elif isinstance(obj, dict):
+        for v in obj.values():
+            _tags(v, out)
+    elif isinstance(obj, (list, tuple)):
+        for v in obj:
+            _tags(v, out)
+    return out
+
+
 class FileSystem:
     def __init__(self):
         self.files = []      # [path(str), content]
@@ -272,6 +288,10 @@ class FileSystem:
             if k is None:
                 raise FileNotFoundError(path)
             h.slot = k
+        elif 'w' in mode:
+            k = fs.find(path)
+            if k is not None:
+                fs.files[k][1] = _TRUNCATED       # open(..., 'w') truncates an existing file at once
         return h
 
 
@@ -314,11 +334,15 @@ class Env:
         class J:
             @staticmethod
             def load(f):
+                if fs.files[f.slot][1] is _TRUNCATED:
+                    raise ValueError('Expecting value: line 1 column 1 (char 0)')      # json.JSONDecodeError on an empty file
                 return _load(fs.files[f.slot][1])
 
             @staticmethod
             def dump(content, f, **kw):
                 data = _jsonify(content)
+                if kw.get('allow_nan', True) is False and (_tags(data, set()) & NONFINITE_TAGS):
+                    raise ValueError('Out of range float values are not JSON compliant')
                 k = fs.find(f.path)
                 fs.writes.append(f.path)
                 if k is None:
